@@ -538,12 +538,21 @@ class LanguageGraph():
                     )
                     return (None, None, None)
 
+                # The result of a set operation can contain assets of either
+                # operand's type, therefore its type is the closest common
+                # super asset of the two.
+                common_superassets = \
+                    lh_target_asset.get_all_common_superassets(rh_target_asset)
+                new_target_asset = next(asset for asset in \
+                    lh_target_asset.get_all_superassets() \
+                        if asset.name in common_superassets)
+
                 new_dep_chain = DependencyChain(
                     type = step_expression['type'],
                     next_link = None)
                 new_dep_chain.left_chain = lh_dep_chain
                 new_dep_chain.right_chain = rh_dep_chain
-                return (lh_target_asset,
+                return (new_target_asset,
                     new_dep_chain,
                     None)
 
